@@ -102,6 +102,11 @@ FRESH_PROGS.update({
     "k": ("CREATE TABLE sessions (id int);\nBEGIN CREATE TABLE orders (id int);\nIF NOT EXISTS (SELECT 1) CREATE TABLE users (id int);\nCREATE TABLE last_k (z int); -- ck\n",
           {}, {"output_mode": "sql"}),
 })
+FRESH_PROGS.update({
+    # a twin of object a: the byte-identical RegexSerDe script given to ANOTHER object (other flags): whatever is remembered per script text
+    # (memoised pre-processing, a cached lexer state) must still reach this object
+    "l": (FRESH_PROGS["a"][0], {"normalize_names": True}),
+})
 KIND_DDL = ("CREATE EXTERNAL TABLE x1 (a int) LOCATION 's3://b/x';\nCREATE TEMPORARY TABLE x2 (a int);\nCREATE TRANSIENT TABLE x3 (a int);\n"
             "CREATE OR REPLACE TABLE x4 (a int) CLUSTER BY (a);\n")
 PLAIN_DDL = "CREATE TABLE y1 (a int, b varchar(5));\nCREATE TABLE s1.y2 (c int);\nCREATE SEQUENCE sq_y START 1;\n"
